@@ -16,7 +16,8 @@ theorem C05_facts :
     ∧ Receptor.Facts.res_buffer = "per-read"
     ∧ Receptor.Facts.res_loop = "seek(filePos);read;n>0:advance,send(buf[:n])"
     ∧ Receptor.Facts.res_remote_offset = "diskStdoutSize := stdoutSize(rw.UnitDir());workSubmitCmd[\"startpos\"] = diskStdoutSize"
-    ∧ Receptor.Facts.res_remote_write = "append;io.Copy(stdout, reader)" := by decide +kernel
+    ∧ Receptor.Facts.res_remote_write = "append;io.Copy(stdout, reader)"
+    ∧ Receptor.Facts.res_remote_sign = "per-request:1;outside-the-loop:0" := by decide +kernel
 
 /-- **sent_is_exact_slice.** For every interleaving of the unit's writes, status rewrites and the
 reader's reads and checks, and every start offset, what has been sent so far is exactly the
